@@ -145,4 +145,27 @@ def PeerEv.recv : PeerEv → Recv
   | .reset => .err (handleError { netErr := true })
   | .silence => .err (handleError { netErr := true, timeout := true })
 
+/-! ### the listener's accept loop and set-ups that stall (`network/tcp.go:395-440`, `router.go:215-258`)
+The loop takes a connection from the operating system and hands it to a routine of its own
+(`go fn(&c)`), where the TLS handshake (driven by the first read) and the identity exchange happen;
+it does not wait for either.  `inline = true`: the variant in which the loop itself completes the
+handshake before it goes on. -/
+
+inductive SetUp where
+  /-- the peer goes through handshake and identity exchange -/
+  | completes (p : Nat)
+  /-- the peer says nothing after its TCP connect and never closes -/
+  | stalls
+  deriving DecidableEq, Repr
+
+/-- the peers whose connection gets registered, in order of arrival -/
+def acceptLoop (inline : Bool) : List SetUp → List Nat
+  | [] => []
+  | .completes p :: l => p :: acceptLoop inline l
+  | .stalls :: l => if inline then [] else acceptLoop inline l
+
+def SetUp.peer? : SetUp → Option Nat
+  | .completes p => some p
+  | .stalls => none
+
 end C09
